@@ -91,6 +91,24 @@ def c_log_A(k):
     k.prove_eq("Log_SO3_A = dLog/dA", rot.Log_SO3_A(A), k.jac(lambda A_: rot.Log_SO3(A_), A), tol=1e-6)
 
 
+@contract("C03", "Log_SO3_A/at-zero-angle", timeout=120)
+def c_log_A0(k):
+    """the first-order branch (trace-cosine >= 1, angle == 0): Log_SO3 is 0.5*axial(A) there and
+    Log_SO3_A must be its derivative"""
+    k.covers(rot.Log_SO3_A, rot.Log_SO3)
+
+    def samp(g):
+        A = np.eye(3) + 0.3 * g.normal(size=(3, 3))
+        A[np.diag_indices(3)] = [1.0, 1.0, 1.0]
+        return A
+
+    A = k.reals("A", (3, 3), sample=samp)
+    ca = 0.5 * (A[0, 0] + A[1, 1] + A[2, 2] - 1.0)
+    k.assume(ca >= 1)
+    k.prove_eq("Log_SO3_A = dLog/dA on the zero-angle branch", rot.Log_SO3_A(A), k.jac(lambda A_: 0.5 * np.array([A_[2, 1] - A_[1, 2], A_[0, 2] - A_[2, 0], A_[1, 0] - A_[0, 1]]), A), tol=1e-9)
+    k.prove_eq("Log_SO3 = 0.5 axial(A) on the zero-angle branch", rot.Log_SO3(A), 0.5 * np.array([A[2, 1] - A[1, 2], A[0, 2] - A[2, 0], A[1, 0] - A[0, 1]]), tol=1e-12)
+
+
 @contract("C03", "Exp_SE3_h", timeout=240)
 def c_exp_se3_h(k):
     k.covers(rot.Exp_SE3_h, rot.Exp_SE3)
